@@ -10,6 +10,10 @@ Self-tests of the framework (DESIGN.md 3.11).
       applies each mutation of /verif/mutants/*.diff to a scratch copy of
       /repo (outside /repo and /verif, removed afterwards) and requires the
       named check to report a violation within its quick budget.
+
+  check.py selftest seeded [id ...]
+      the same for the changes written by independent sub-agents under
+      /verif/seeded/<id>/ (patch.diff + the checks named in meta.json).
 """
 import os
 import sys
@@ -122,6 +126,47 @@ def sensitivity(names):
     return 1 if missed else 0
 
 
+def seeded(names):
+    """Re-run, for every /verif/seeded/<id>, the checks named in its meta.json against a scratch worktree carrying its
+    patch; every seeded change must be reported by at least one of them."""
+    sdir = os.path.join(core.VERIF, 'seeded')
+    ids = sorted(d for d in os.listdir(sdir) if os.path.isdir(os.path.join(sdir, d)))
+    if names:
+        ids = [i for i in ids if i in names]
+    missed = 0
+    for sid in ids:
+        meta = json.load(open(os.path.join(sdir, sid, 'meta.json')))
+        checks = meta['confirmed']['checks_run']
+        scratch = tempfile.mkdtemp(prefix='verif-seeded-')
+        repo = os.path.join(scratch, 'repo')
+        try:
+            subprocess.run(['git', '-C', core.REPO, 'worktree', 'add', '--detach', '-f', repo, 'HEAD'], capture_output=True, check=True)
+            try:
+                pr = subprocess.run(['git', '-C', repo, 'apply', os.path.join(sdir, sid, 'patch.diff')], capture_output=True, text=True)
+                if pr.returncode != 0:
+                    print('SEEDED %s: patch does not apply to the current tree: %s' % (sid, pr.stderr.strip()[:160]))
+                    missed += 1
+                    continue
+                caught = []
+                for prop in checks:
+                    env = dict(os.environ)
+                    env.pop('_VERIF_REEXEC', None)
+                    env['VERIF_REPO'] = repo
+                    env['VERIF_REPLAY_DIR'] = os.path.join(scratch, 'replays')
+                    p = subprocess.run([sys.executable, os.path.join(core.VERIF, 'check.py'), prop, '--no-evidence'], capture_output=True, text=True, env=env, timeout=3600)
+                    if p.returncode == 1 and 'VIOLATION property=%s' % prop in p.stdout:
+                        caught.append(prop)
+                print('SEEDED %s: %s' % (sid, ('caught by ' + ','.join(caught)) if caught else 'MISSED by ' + ','.join(checks)))
+                sys.stdout.flush()
+                if not caught:
+                    missed += 1
+            finally:
+                subprocess.run(['git', '-C', core.REPO, 'worktree', 'remove', '--force', repo], capture_output=True)
+        finally:
+            shutil.rmtree(scratch, ignore_errors=True)
+    return 1 if missed else 0
+
+
 def main(argv):
     if not argv:
         print(__doc__)
@@ -137,5 +182,7 @@ def main(argv):
         return determinism(rest or ALL, runs)
     if what == 'sensitivity':
         return sensitivity(rest)
+    if what == 'seeded':
+        return seeded(rest)
     print(__doc__)
     return 2
